@@ -434,6 +434,29 @@ static int secp256k1_musig_nonce_gen_internal(const secp256k1_context* ctx, secp
     return ret;
 }
 
+#ifdef SECP256K1_ZKP_VERIF
+#include "../../verif_hooks.h"
+/* identity of a live secret nonce for the trace: first 8 bytes of SHA256(k1 || k2); never the nonce itself */
+static void secp256k1_verif_secnonce_id(unsigned char *id8, const unsigned char *data) {
+    secp256k1_sha256 sha;
+    unsigned char h[32];
+    secp256k1_sha256_initialize(&sha);
+    secp256k1_sha256_write(secp256k1_get_hash_context(secp256k1_context_static), &sha, &data[4], 64);
+    secp256k1_sha256_finalize(secp256k1_get_hash_context(secp256k1_context_static), &sha, h);
+    memcpy(id8, h, 8);
+}
+static void secp256k1_verif_emit_nonce_event(const char *name, const void *obj, int pre, int post, const unsigned char *postdata, int rand_pre, int rand_post, int ret) {
+    FILE *f = secp256k1_verif_trace_open();
+    unsigned char id8[8] = {0};
+    if (f == NULL) return;
+    if (post == 1) secp256k1_verif_secnonce_id(id8, postdata);
+    fprintf(f, "{\"seq\":%lu,\"e\":\"%s\",\"obj\":\"%p\",\"pre\":%d,\"post\":%d,\"kid\":[%u,%u,%u,%u,%u,%u,%u,%u],\"rand_pre\":%d,\"rand_post\":%d,\"ret\":%d}\n",
+        ++secp256k1_verif_trace_seq, name, obj, pre, post, id8[0], id8[1], id8[2], id8[3], id8[4], id8[5], id8[6], id8[7], rand_pre, rand_post, ret);
+    fflush(f);
+}
+#define secp256k1_musig_nonce_gen secp256k1_musig_nonce_gen_verif_inner
+#define secp256k1_musig_nonce_gen_counter secp256k1_musig_nonce_gen_counter_verif_inner
+#endif
 int secp256k1_musig_nonce_gen(const secp256k1_context* ctx, secp256k1_musig_secnonce *secnonce, secp256k1_musig_pubnonce *pubnonce, unsigned char *session_secrand32, const unsigned char *seckey, const secp256k1_pubkey *pubkey, const unsigned char *msg32, const secp256k1_musig_keyagg_cache *keyagg_cache, const unsigned char *extra_input32) {
     int ret = 1;
 
@@ -637,6 +660,27 @@ int secp256k1_musig_nonce_process(const secp256k1_context* ctx, secp256k1_musig_
     return 1;
 }
 
+#ifdef SECP256K1_ZKP_VERIF
+#undef secp256k1_musig_nonce_gen
+#undef secp256k1_musig_nonce_gen_counter
+int secp256k1_musig_nonce_gen(const secp256k1_context* ctx, secp256k1_musig_secnonce *secnonce, secp256k1_musig_pubnonce *pubnonce, unsigned char *session_secrand32, const unsigned char *seckey, const secp256k1_pubkey *pubkey, const unsigned char *msg32, const secp256k1_musig_keyagg_cache *keyagg_cache, const unsigned char *extra_input32) {
+    int pre = secp256k1_verif_secnonce_class(secnonce ? secnonce->data : NULL, secp256k1_musig_secnonce_magic);
+    int rand_pre = secp256k1_verif_is_zero32(session_secrand32);
+    int ret = secp256k1_musig_nonce_gen_verif_inner(ctx, secnonce, pubnonce, session_secrand32, seckey, pubkey, msg32, keyagg_cache, extra_input32);
+    secp256k1_verif_emit_nonce_event("NonceGen", (const void*)secnonce, pre, secp256k1_verif_secnonce_class(secnonce ? secnonce->data : NULL, secp256k1_musig_secnonce_magic),
+        secnonce ? secnonce->data : NULL, rand_pre, secp256k1_verif_is_zero32(session_secrand32), ret);
+    return ret;
+}
+int secp256k1_musig_nonce_gen_counter(const secp256k1_context* ctx, secp256k1_musig_secnonce *secnonce, secp256k1_musig_pubnonce *pubnonce, uint64_t nonrepeating_cnt, const secp256k1_keypair *keypair, const unsigned char *msg32, const secp256k1_musig_keyagg_cache *keyagg_cache, const unsigned char *extra_input32) {
+    int pre = secp256k1_verif_secnonce_class(secnonce ? secnonce->data : NULL, secp256k1_musig_secnonce_magic);
+    int ret = secp256k1_musig_nonce_gen_counter_verif_inner(ctx, secnonce, pubnonce, nonrepeating_cnt, keypair, msg32, keyagg_cache, extra_input32);
+    secp256k1_verif_emit_nonce_event("NonceGenCounter", (const void*)secnonce, pre, secp256k1_verif_secnonce_class(secnonce ? secnonce->data : NULL, secp256k1_musig_secnonce_magic),
+        secnonce ? secnonce->data : NULL, -1, -1, ret);
+    return ret;
+}
+#define secp256k1_musig_partial_sign secp256k1_musig_partial_sign_verif_inner
+#endif
+
 static void secp256k1_musig_partial_sign_clear(secp256k1_scalar *sk, secp256k1_scalar *k) {
     secp256k1_scalar_clear(sk);
     secp256k1_scalar_clear(&k[0]);
@@ -712,6 +756,31 @@ int secp256k1_musig_partial_sign(const secp256k1_context* ctx, secp256k1_musig_p
     secp256k1_musig_partial_sign_clear(&sk, k);
     return 1;
 }
+
+#ifdef SECP256K1_ZKP_VERIF
+#undef secp256k1_musig_partial_sign
+int secp256k1_musig_partial_sign(const secp256k1_context* ctx, secp256k1_musig_partial_sig *partial_sig, secp256k1_musig_secnonce *secnonce, const secp256k1_keypair *keypair, const secp256k1_musig_keyagg_cache *keyagg_cache, const secp256k1_musig_session *session) {
+    int pre = secp256k1_verif_secnonce_class(secnonce ? secnonce->data : NULL, secp256k1_musig_secnonce_magic);
+    unsigned char id8[8] = {0};
+    int keymatch = -1; /* -1: not comparable (NULL keypair or dead nonce); else raw 64-byte comparison of the bound key with the keypair's public key */
+    int ret, post;
+    FILE *f;
+    if (pre == 1) {
+        secp256k1_verif_secnonce_id(id8, secnonce->data);
+        if (keypair != NULL) keymatch = memcmp(&secnonce->data[68], &keypair->data[32], 64) == 0;
+    }
+    ret = secp256k1_musig_partial_sign_verif_inner(ctx, partial_sig, secnonce, keypair, keyagg_cache, session);
+    post = secp256k1_verif_secnonce_class(secnonce ? secnonce->data : NULL, secp256k1_musig_secnonce_magic);
+    f = secp256k1_verif_trace_open();
+    if (f != NULL) {
+        fprintf(f, "{\"seq\":%lu,\"e\":\"PartialSign\",\"obj\":\"%p\",\"pre\":%d,\"post\":%d,\"kid\":[%u,%u,%u,%u,%u,%u,%u,%u],\"keymatch\":%d,\"argnull\":%d,\"ret\":%d}\n",
+            ++secp256k1_verif_trace_seq, (const void*)secnonce, pre, post, id8[0], id8[1], id8[2], id8[3], id8[4], id8[5], id8[6], id8[7], keymatch,
+            (partial_sig == NULL) || (keypair == NULL) || (keyagg_cache == NULL) || (session == NULL), ret);
+        fflush(f);
+    }
+    return ret;
+}
+#endif
 
 int secp256k1_musig_partial_sig_verify(const secp256k1_context* ctx, const secp256k1_musig_partial_sig *partial_sig, const secp256k1_musig_pubnonce *pubnonce, const secp256k1_pubkey *pubkey, const secp256k1_musig_keyagg_cache *keyagg_cache, const secp256k1_musig_session *session) {
     secp256k1_keyagg_cache_internal cache_i;
